@@ -50,6 +50,10 @@ func VerifC13Fault() {
 	endings := []string{"", "; exit 3", "; x = 1 / zero"}
 	// the long constant makes a 16-byte bufio.Writer flush in the middle of the run as well as at the end
 	src := `BEGIN { print a "0123456789abcdef"; printf "%s", b; print c` + endings[verifIntRange(0, 2)] + ` }`
+	if verifIntRange(0, 1) == 1 {
+		// only bare print (the current record) and a print to /dev/stdout: the paths that write a line as it is
+		src = `BEGIN { $0 = a "0123456789abcdef"; print; $0 = b; print; print > "/dev/stdout"; $0 = c "0123456789abcdef"; print` + endings[verifIntRange(0, 2)] + ` }`
+	}
 	buffered := verifIntRange(0, 1) == 1
 	vars := map[string]value{"a": str(verifString(1)), "b": str(verifString(1)), "c": str(verifString(1))}
 	run := func(failAt int) (*verifFailWriter, error) {
@@ -279,9 +283,68 @@ func VerifC13CloseStatusAfterFlushError() {
 	prog := verifParse(`BEGIN { print "data" | "cmd"; r = close("cmd") }`)
 	p := newInterp(prog)
 	verifAssert(p.setExecuteConfig(&Config{Stdin: bytes.NewReader(nil), Output: &bytes.Buffer{}, Error: &bytes.Buffer{}, Environ: []string{}, ShellCommand: []string{"/nonexistent/gosym-no-shell"}}) == nil, "config")
-	verifWaitStatus(ws)      // the modelled child exits with this status ...
+	verifWaitStatus(ws)       // the modelled child exits with this status ...
 	verifPipeWriteFails(true) // ... without reading its input: writes to its stdin pipe fail
 	err := p.execute(prog.Compiled.Begin)
 	verifAssert(err == nil, "program failed")
 	verifAssert(verifGlobal(p, "r").n == float64(ws>>8), "close() of a command did not report the command's exit status (the command had exited without reading its input)")
+}
+
+// a destination is identified by the spelling of its name: print, close and fflush given the same spelling mean
+// the same stream, whether or not a path cleaner would rewrite that spelling
+func VerifC13Names() {
+	name := []string{"A", "./A", "d/../A", "d//A", "A/.", " A", "a+b"}[verifIntRange(0, 6)]
+	p, q := verifString(1), verifString(1)
+	pre := verifString(1)
+	disk := &verifDisk{content: map[string][]byte{name: []byte(pre)}}
+	progs := []string{
+		`BEGIN { print p > @@; r1 = close(@@); print q > @@; r2 = close(@@); r3 = close(@@) }`,
+		`BEGIN { print p >> @@; r1 = close(@@); print q >> @@; r2 = fflush(@@); r3 = close("other") }`,
+		`BEGIN { print p > @@; r1 = fflush(@@); print q > @@; r2 = close(@@); r3 = fflush(@@) }`,
+	}
+	pi := verifIntRange(0, 2)
+	src := verifReplaceAll(progs[pi], "@@", "\""+name+"\"")
+	cfg := &Config{Stdin: bytes.NewReader(nil), Output: &bytes.Buffer{}, Error: &bytes.Buffer{}, Environ: []string{},
+		OpenFile: func(n string, flag int, perm os.FileMode) (*os.File, error) {
+			disk.collect(n)
+			if flag&os.O_TRUNC != 0 {
+				disk.content[n] = nil
+			}
+			f := verifNewFile(nil)
+			disk.handles = append(disk.handles, f)
+			disk.names = append(disk.names, n)
+			disk.collected = append(disk.collected, 0)
+			return f, nil
+		}}
+	_, err, ip := verifRunProgram(src, cfg, map[string]value{"p": str(p), "q": str(q)})
+	verifAssert(err == nil, "run failed")
+	disk.collect("")
+	var want string
+	var r1, r2, r3 float64
+	switch pi {
+	case 0:
+		want, r1, r2, r3 = q+"\n", 0, 0, -1
+	case 1:
+		want, r1, r2, r3 = pre+p+"\n"+q+"\n", 0, 0, -1
+	default:
+		want, r1, r2, r3 = p+"\n"+q+"\n", 0, 0, -1
+	}
+	verifReach("compared")
+	verifAssert(string(disk.content[name]) == want, "the file does not hold what was printed to that name (close did not end the stream, or a later > did not truncate)")
+	verifAssert(verifGlobal(ip, "r1").n == r1 && verifGlobal(ip, "r2").n == r2 && verifGlobal(ip, "r3").n == r3, "close / fflush of an open destination did not return 0, or of a name that is not open did not return -1")
+	verifAssert(len(disk.content) == 1, "a destination was opened under a name other than the one the program used")
+}
+
+func verifReplaceAll(s, old, with string) string {
+	out := ""
+	for i := 0; i < len(s); {
+		if i+len(old) <= len(s) && s[i:i+len(old)] == old {
+			out += with
+			i += len(old)
+		} else {
+			out += string(s[i])
+			i++
+		}
+	}
+	return out
 }
